@@ -37,6 +37,21 @@ CycShapes(n, maxE) ==
       /\ AllEdgesOnSTWalk(IdxGraph(E))}
 
 (***************************************************************************)
+(* Motifs: larger hand-picked shapes (5-6 nodes) that the exhaustive       *)
+(* universes on <= 4 nodes cannot contain: a bridge shared by two routes   *)
+(* between two sources and two sinks, a cycle between them, nested cycles, *)
+(* parallel exits of an SCC next to a competing branch, a cycle hanging on *)
+(* a cycle.                                                                *)
+(***************************************************************************)
+MotifShapes ==
+  { {<<1,3>>, <<2,3>>, <<3,4>>, <<4,5>>, <<4,6>>},                               \* double diamond (bridge 3->4)
+    {<<1,3>>, <<2,3>>, <<3,4>>, <<4,3>>, <<4,5>>, <<4,6>>},                      \* the same with a cycle on the bridge
+    {<<1,2>>, <<2,3>>, <<3,2>>, <<3,4>>, <<4,3>>, <<2,5>>},                      \* nested / touching cycles
+    {<<1,2>>, <<2,3>>, <<3,2>>, <<2,4>>, <<3,4>>, <<4,6>>, <<2,5>>, <<5,6>>},    \* parallel SCC exits + competing branch
+    {<<1,2>>, <<2,6>>, <<2,3>>, <<3,2>>, <<3,4>>, <<4,3>>},                      \* a cycle reachable only through a cycle
+    {<<1,2>>, <<1,3>>, <<2,4>>, <<3,4>>, <<4,5>>, <<5,6>>, <<4,6>>} }            \* diamond, then bridge, then split
+
+(***************************************************************************)
 (* Planted flows: superpositions of weighted source-to-sink routes.        *)
 (***************************************************************************)
 STPaths(G) == UNION {PathsFrom(G, s, Sinks(G)) : s \in Sources(G)}
